@@ -745,6 +745,38 @@ def graph_replay(ctx, tid0, actors_set, maxw, budget):
     return traces, meta, tid
 
 
+def binding_controls(ctx, traces):
+    """The trace specification is not vacuous: a recorded execution with one field corrupted must be
+    rejected by a property clause, one with a hook removed must be flagged as leaving the protocol."""
+    import copy
+    good = next((t for t in traces if any(e["op"] == "replace" and e["ok"] for e in t["ev"]) and len(t["ev"]) >= 6), None)
+    if good is None:
+        raise MachineryError("no committed execution available for the binding controls")
+    a = copy.deepcopy(good)
+    a["tid"] = 900001
+    for e in a["ev"]:
+        if e["op"] == "replace" and e["ok"]:
+            e["tw"], e["tn"] = TORN, 0          # the observed target content is neither old nor complete
+            break
+    b = copy.deepcopy(good)
+    b["tid"] = 900002
+    b["ev"] = [e for i, e in enumerate(b["ev"]) if not (e["op"] == "open_excl" and e["ok"] and i == [j for j, x in enumerate(b["ev"]) if x["op"] == "open_excl" and x["ok"]][0])]
+    d = ctx.tmpdir("ctl")
+    path = os.path.join(d, "ctl.ndjson")
+    with open(path, "w") as f:
+        for t in (a, b):
+            f.write(json.dumps(t, separators=(",", ":")) + "\n")
+    res = tlc.run("LockFileTrace.tla", "LockFileTrace.cfg", workers=1, timeout=300, env={"TRACE_FILE": path})
+    ctx.add_tlc("LockFileTrace[binding controls: corrupted field, removed hook]", res, require_ok=False)
+    v = {x[1]: x for x in tlc.extract_printed(res.output, "VERDICT")}
+    if 900001 not in v or v[900001][2] != "AtomicReplace":
+        raise MachineryError(f"binding control failed: corrupted target content was not rejected by AtomicReplace: {v.get(900001)}")
+    if 900002 not in v or not (v[900002][4] or v[900002][2] != "ok"):
+        raise MachineryError(f"binding control failed: a trace with the open_excl event removed was accepted: {v.get(900002)}")
+    ctx.cov["binding_controls"] = {"corrupted_field_rejected_by": v[900001][2], "removed_hook_drift_at": v[900002][4], "removed_hook_verdict": v[900002][2]}
+    shutil.rmtree(d, ignore_errors=True)
+
+
 # --------------------------------------------------------------------------- entry
 def run(ctx):
     # 1. the model itself
@@ -766,6 +798,7 @@ def run(ctx):
         allmeta.update(meta)
     n = validate_batch(ctx, alltr, "all", allmeta)
     ctx.validated(n)
+    binding_controls(ctx, alltr)
     ctx.cov["rule"] = ("executions of the real _GitFile / lock-protocol callers: (a) one per TLC state-graph behaviour needed to cover "
                        "every transition, (b) every schedule with a bounded number of preemptions for a menu of writer programs, "
                        "(c) every fault position x error kind; distinct = distinct (scenario, event sequence); all are non-trivial "
